@@ -8,7 +8,7 @@ from typing import Dict, List, Optional, Set, Tuple
 from ..core import astutil as A
 from ..core.index import AnalysisError, FuncInfo, external_init_signature
 from ..selftest import M
-from .common import T, calls_named, conds, conjuncts, every_origin, facts, need, where
+from .common import subscript_stores, T, calls_named, conds, conjuncts, every_origin, facts, need, where
 from .rounding import check_helper, is_otround
 from . import c08
 
@@ -34,6 +34,8 @@ def run(prog, chk):
     chk.decided += ["the pair list handed to the lookup builders is the collected list itself: between the collection (UFO pairs with unknown glyphs / groups removed) and the base / mark and script "
                     "splits no pair is filtered out or rewritten - an exception that 'restates' a class value still shields the pair from a more general exception (R05.12)"]
     chk.decided += ["feature-writer objects keep no per-font state outside self.context (no memoising decorators, no attributes written outside __init__): a kern writer object reused for a second font must not split base / mark pairs with the first font's mark set (R05.13 = R08.7)"]
+    chk.decided += ["no kern-writer function answers from a dictionary it also fills under a key that is only one element of the collection the answer depends on (a class 'identified' by its first glyph: "
+                    "a first-side and a second-side class may share it) (R05.14)"]
     chk.not_decided += ["what a shaper applies", "that common and script lookups never both hold the same glyph pair", "script / bidi classification of glyphs", "the kerning values themselves"]
     chk.guard(r051, prog, chk)
     chk.guard(r052, prog, chk)
@@ -50,6 +52,7 @@ def run(prog, chk):
     chk.guard(r0512, prog, chk)
     from .c08 import r087
     chk.guard(r087, prog, chk, "R05.13")
+    chk.guard(check_no_partial_key_memo, prog, chk, "R05.14")
 
 
 # ----------------------------------------------------------------------------- R05.1
@@ -729,7 +732,50 @@ def r0512(prog, chk):
     chk.minimum("R05.12", 3)
 
 
+# ----------------------------------------------------------------------------- R05.14
+def check_no_partial_key_memo(prog, chk, rule, modules=("ufo2ft.featureWriters",)):
+    """Memo pattern `k = xs[0]; if k in D: return D[k]; D[k] = f(xs)`: correct only if xs[0] determines xs."""
+    n, hits = 0, 0
+    for fi in prog.ix.functions.values():
+        if isinstance(fi.node, ast.Lambda) or not any(fi.module.name.startswith(m_) for m_ in modules):
+            continue
+        n += 1
+        stores = [(s_, t, v) for s_, t, v in subscript_stores(fi) if isinstance(t.value, ast.Name)]
+        for s_, t, v in stores:
+            d = t.value.id
+            key = t.slice
+
+            def partial(k, depth=0):
+                """k is one element of a collection: xs[0], next(iter(xs)), or a local bound to such"""
+                if isinstance(k, ast.Subscript) and isinstance(k.slice, ast.Constant) and isinstance(k.slice.value, int):
+                    return k.value
+                if isinstance(k, ast.Call) and A.callee_name(k) == "next" and k.args and isinstance(k.args[0], ast.Call) and A.callee_name(k.args[0]) == "iter" and k.args[0].args:
+                    return k.args[0].args[0]
+                if isinstance(k, ast.Name) and depth < 2:
+                    ds = prog.reaching(fi, k.id, k)
+                    if len(ds) == 1 and ds[0].kind == "assign" and ds[0].value is not None and ds[0].element()[1] is None:
+                        return partial(ds[0].value, depth + 1)
+                return None
+            coll = partial(key)
+            if coll is None:
+                continue
+            # the stored value is computed from the whole collection, and the same dictionary is read under the same key
+            uses_coll = any(T(x) == T(coll) for x in ast.walk(v))
+            reads = [x for x in A.body_nodes(fi.node) if (isinstance(x, ast.Subscript) and isinstance(x.ctx, ast.Load) and isinstance(x.value, ast.Name) and x.value.id == d and T(x.slice) == T(key))
+                     or (isinstance(x, ast.Call) and isinstance(x.func, ast.Attribute) and x.func.attr == "get" and isinstance(x.func.value, ast.Name) and x.func.value.id == d and x.args and T(x.args[0]) == T(key))]
+            if uses_coll and reads:
+                hits += 1
+                chk.ob(rule, f"{fi.short}|{A.keytext(fi.node, s_)}|memo keyed by one element of the collection it summarises", False, where(fi, s_), detail=f"key {T(key)} of {T(coll)}",
+                       message=f"{fi.short} remembers a result computed from all of `{T(coll)}` under the key `{T(key)}` (one element of it) and answers later calls from that entry: two "
+                               f"different collections that share that element (a first-side and a second-side kerning class with the same first glyph) get each other's result")
+    chk.ob(rule, "no memo keyed by a single element of the collection it summarises", hits == 0, "", detail=f"{n} functions examined", nontrivial=False)
+    need(n >= 60, f"{rule}: functions examined: {n}")
+    chk.minimum(rule, 1)
+
+
 MUTANTS = [
+    M("class split cached under the class's first glyph, one cache for both sides (seeded C05n)", "ufo2ft/featureWriters/kernFeatureWriter.py", "", "<append-module>",
+      "_SPLITS = {}\ndef splitClassByMarks(glyphs, marks, cache=_SPLITS):\n    key = glyphs[0]\n    if key in cache:\n        return cache[key]\n    cache[key] = (tuple(g for g in glyphs if g not in marks), tuple(g for g in glyphs if g in marks))\n    return cache[key]\n", rule="R05.14"),
     M("mark set of the kern writer memoised with cached_property (seeded C05m)", "ufo2ft/featureWriters/kernFeatureWriter.py", "KernFeatureWriter.getKerningData",
       "<decorate>", "functools.cached_property", rule="R05.13"),
     M("'redundant' exceptions dropped after collection (seeded C05j)", "ufo2ft/featureWriters/kernFeatureWriter.py", "KernFeatureWriter.getKerningData",
